@@ -204,6 +204,10 @@ def run(rep, tier, seed):
         if bad:
             if not exact and all(b.startswith('N2?') for b in bad) and bump_case(r):
                 n2.append(i)
+            elif (not exact and impl[i] == model[i] and bumped_division(r)
+                  and all(b.startswith('N2?') or 'outside the bounding box' in b for b in bad)):
+                # the same corner case with one segment divided only: the bumped point leaves the other segment's box
+                n2.append(i)
             else:
                 fails.append((i, bad))
     # order independence (lattice part): swapping the arguments divides the same segments at the same points
@@ -265,3 +269,12 @@ def bump_case(r):
     """the two division points differ by the one-ulp bump of divide_segment's corner case 1"""
     d1, d2 = r['l1']['other'], r['l2']['other']
     return d1[1] == d2[1] and (d1[0] == math.nextafter(d2[0], math.inf) or d2[0] == math.nextafter(d1[0], math.inf))
+
+
+def bumped_division(r):
+    """some division point is the one-ulp bump of corner case 1: x = next_up(x of the divided segment's left endpoint), y below it"""
+    for l in (r['l1'], r['l2']):
+        L, D = l['p'], l['other']
+        if D[0] == math.nextafter(L[0], math.inf) and D[1] < L[1]:
+            return True
+    return False
